@@ -593,6 +593,16 @@ func main() {
 		lib.Finish(f, res)
 	}
 
+	if os.Getenv("C01_ONLY") == "revert" {
+		legacyPurgeVariant = legacyPurges()
+		checkReverts(f, res, r.Fork(12_000_000), nil)
+		lib.Finish(f, res)
+	}
+	if os.Getenv("C01_ONLY") == "enc" {
+		checkEncodings(f, res, drv, r.Fork(11_000_000))
+		lib.Finish(f, res)
+	}
+
 	// 0. juno's hash primitives against the independent implementations (boundary felts × boundary felts)
 	checkPrimitives(f, res, r)
 	if f.Out != "" {
@@ -681,6 +691,11 @@ func main() {
 	checkVersions(f, res, drv, r.Fork(7_000_000))
 	checkPointerReuse(f, res, drv, r.Fork(8_000_000))
 	probeLeads(res)
+	// byte level of the persisted nodes / records / keys (round 6)
+	checkEncodings(f, res, drv, r.Fork(11_000_000))
+	if f.Out != "" {
+		_ = res.Write(f.Out)
+	}
 
 	// 5. state-diff sequences through core/state and core/deprecatedstate
 	legacyPurgeVariant = legacyPurges()
@@ -714,6 +729,8 @@ func main() {
 		scs = append(scs, genManyContractsCase(r.Fork(uint64(9_000_000+i))))
 	}
 	checkStateCases(f, res, drv, scs, "state-many-contracts")
+	// reorgs: blocks reverted (State.Revert of both backends), then other blocks accepted (round 6)
+	checkReverts(f, res, r.Fork(12_000_000), nil)
 	// 6. a database produced by an upgrade: Contract records written by the head-state migration (round 5)
 	runMigratedFamilies(f, res, drv, r.Fork(10_000_000))
 	lib.Finish(f, res)
@@ -764,6 +781,16 @@ func runReplay(f lib.Flags, res *lib.Result, drv *lib.Driver) {
 		}
 		legacyPurgeVariant = legacyPurges()
 		checkMigrated(f, res, drv, []*MigCase{&mc}, "replay")
+	case "enc":
+		checkEncodings(f, res, drv, lib.NewRNG(f.Seed).Fork(11_000_000))
+	case "revert":
+		var rc RevCase
+		if err := json.Unmarshal(body.State, &rc); err != nil {
+			res.Fatalf("replay: %v", err)
+			return
+		}
+		legacyPurgeVariant = legacyPurges()
+		checkReverts(f, res, lib.NewRNG(f.Seed), &rc)
 	case "ptr":
 		checkPointerReuse(f, res, drv, lib.NewRNG(f.Seed).Fork(8_000_000))
 	case "version":
